@@ -44,6 +44,10 @@ func runC13(c *Ctx) {
 	}
 	info := pk.TypesInfo
 
+	// the subscriber registries are ds.Lists whose handles the unsubscribe closures remove (possibly
+	// twice): the list's handle validation and bookkeeping are part of what exactly-once rests on
+	checkListCore(r, p)
+
 	// (2)/(3) guarded-by rows
 	checkGuards(r, p, "lock/guarded-by", []GuardRow{
 		{Pkg: pkg, Type: "readableVariable", Mutex: "valueMutex", Fields: []string{"value", "uniqueUpdateID"}},
@@ -187,6 +191,62 @@ func runC13(c *Ctx) {
 		})
 		if n != 1 {
 			r.Fail("writer/one-order-section", key+" helper", p.posStr(fd.Pos()), fmt.Sprintf("expected exactly one call of %s, found %d", row.helper, n))
+		}
+	}
+	// all writers of one reactive value serialise on the SAME update-order mutex: the field object the
+	// Lock call selects (through embedding) must be identical - a field of the same name declared on an
+	// embedding type shadows the promoted one and silently splits the writers into two lock domains
+	for _, grp := range []struct {
+		name    string
+		members [][2]string
+	}{
+		{"set writers", [][2]string{{"set", "Apply"}, {"set", "Compute"}, {"set", "Replace"}, {"derivedSet", "inheritMutations"}}},
+		{"variable writers", [][2]string{{"variable", "Compute"}}},
+	} {
+		var first *types.Var
+		firstOf, okGrp, n := "", true, 0
+		for _, m := range grp.members {
+			fd := p.FuncDecl(pkg, m[0], m[1])
+			if fd == nil {
+				continue
+			}
+			var lockField *types.Var
+			ast.Inspect(fd.Body, func(nd ast.Node) bool {
+				if lockField != nil {
+					return false
+				}
+				cl, ok := nd.(*ast.CallExpr)
+				if !ok {
+					return true
+				}
+				se, ok := ast.Unparen(cl.Fun).(*ast.SelectorExpr)
+				if !ok || se.Sel.Name != "Lock" {
+					return true
+				}
+				if fs, ok := ast.Unparen(se.X).(*ast.SelectorExpr); ok {
+					if sel := info.Selections[fs]; sel != nil && sel.Kind() == types.FieldVal {
+						if v, _ := sel.Obj().(*types.Var); v != nil {
+							lockField = v.Origin()
+						}
+					}
+				}
+				return true
+			})
+			if lockField == nil {
+				continue
+			}
+			n++
+			if first == nil {
+				first, firstOf = lockField, m[0]+"."+m[1]
+			} else if lockField != first {
+				okGrp = false
+				r.Fail("writer/same-order-mutex", pkg+"."+m[0]+"."+m[1], p.posStr(fd.Pos()), fmt.Sprintf("locks %s (declared at %s) while %s locks %s (declared at %s): the writers of one value are not serialised against each other, so subscribers can see their updates in different orders", lockField.Name(), p.posStr(lockField.Pos()), firstOf, first.Name(), p.posStr(first.Pos())))
+			}
+		}
+		if n != len(grp.members) {
+			r.Fail("writer/same-order-mutex", pkg+" "+grp.name, "-", fmt.Sprintf("expected %d writers that lock a mutex field, found %d", len(grp.members), n))
+		} else if okGrp {
+			r.Pass("writer/same-order-mutex", pkg+" "+grp.name, p.posStr(first.Pos()), fmt.Sprintf("%d writer(s) lock the same field object %s", n, first.Name()))
 		}
 	}
 	// value helpers: change + Next + Values in one value-mutex section
